@@ -148,6 +148,18 @@ type formatDef struct {
 	render   func(recs []Record, l Layout) []byte
 	expected func(recs []Record, l Layout) []Pair
 	special  func(r Record) bool
+	// files: the other files of the rendering (path -> content), for formats whose file refers
+	// to neighbour files (requirements.txt includes); nil otherwise
+	files func(recs []Record, l Layout) map[string][]byte
+	// located: the expected packages with the locations a reader must report for each (nil:
+	// every package is located at Path alone)
+	located func(recs []Record, l Layout) []Located
+}
+
+// Located is an expected package with its expected locations.
+type Located struct {
+	Pair
+	Locations []string `json:"locations"`
 }
 
 var formats = map[string]*formatDef{}
@@ -198,6 +210,43 @@ func Expected(format string, recs []Record, l Layout) []Pair {
 		return nil
 	}
 	return SortPairs(f.expected(recs, l))
+}
+
+// Files returns the neighbour files of the rendering (path relative to the scan root ->
+// content); nil for formats that are a single file.
+func Files(format string, recs []Record, l Layout) map[string][]byte {
+	f, ok := formats[format]
+	if !ok || f.files == nil {
+		return nil
+	}
+	return f.files(recs, l)
+}
+
+// ExpectedLocated is Expected with the locations each package must be reported at.
+func ExpectedLocated(format string, recs []Record, l Layout) []Located {
+	f, ok := formats[format]
+	if !ok {
+		return nil
+	}
+	var out []Located
+	if f.located != nil {
+		out = f.located(recs, l)
+	} else {
+		p := f.path(l)
+		for _, e := range f.expected(recs, l) {
+			out = append(out, Located{e, []string{p}})
+		}
+	}
+	sort.SliceStable(out, func(i, j int) bool {
+		if out[i].Name != out[j].Name {
+			return out[i].Name < out[j].Name
+		}
+		if out[i].Version != out[j].Version {
+			return out[i].Version < out[j].Version
+		}
+		return strings.Join(out[i].Locations, "\x00") < strings.Join(out[j].Locations, "\x00")
+	})
+	return out
 }
 
 // Canonical is the layout the format's own tool writes.
